@@ -56,7 +56,8 @@ type Ctx struct {
 	Conform  []ConformRec // instr workers: deterministic cases to re-run on the light build
 	replay   bool
 	skipTo   int64
-	NoShard  bool // Mine() accepts everything (the check shards by its own rule)
+	stopAt   int64 // replay of a unit of work that killed its worker: only units in [skipTo, stopAt) run
+	NoShard  bool  // Mine() accepts everything (the check shards by its own rule)
 }
 
 type ConformRec struct {
@@ -70,13 +71,29 @@ func (c *Ctx) Quick() bool { return c.Tier != "thorough" }
 func (c *Ctx) Mine() bool {
 	i := c.idx
 	c.idx++
-	if i < c.skipTo {
+	if i < c.skipTo || (c.stopAt > 0 && i >= c.stopAt) {
 		return false
 	}
-	if c.NoShard {
-		return true
+	mine := c.NoShard || c.N <= 1 || int(i%int64(c.N)) == c.Shard
+	if mine && c.caseOut != nil && !c.Def.Risky {
+		// name the unit of work that is about to run: if it kills the process, the parent knows which one it was
+		fmt.Fprintf(c.caseOut, "%d\n", i)
 	}
-	return c.N <= 1 || int(i%int64(c.N)) == c.Shard
+	return mine
+}
+
+// Unit marks the start of one unit of work in checks that shard by themselves (on a hash of the case): it
+// numbers the units of this shard so that a unit that kills the worker can be named, skipped and replayed.
+func (c *Ctx) Unit() bool {
+	i := c.idx
+	c.idx++
+	if i < c.skipTo || (c.stopAt > 0 && i >= c.stopAt) {
+		return false
+	}
+	if c.caseOut != nil && !c.Def.Risky {
+		fmt.Fprintf(c.caseOut, "%d\n", i)
+	}
+	return true
 }
 
 func (c *Ctx) Expired() bool {
@@ -234,7 +251,7 @@ func workerMain(args []string) {
 	if len(args) > 5 {
 		c.skipTo, _ = strconv.ParseInt(args[5], 10, 64)
 	}
-	if def.Risky {
+	if os.Getenv("VERIF_CASE_FD") == "3" {
 		c.caseOut = os.NewFile(3, "caseout")
 	}
 	if pf := os.Getenv("VERIF_PROF"); pf != "" && shard == 0 {
@@ -285,6 +302,20 @@ func replayMain(args []string) {
 	cs, _ := json.Marshal(v.Case)
 	c := &Ctx{Def: def, Tier: "replay", N: 1, Res: newResult(0), findings: nil, replay: true}
 	obs := ""
+	var unit struct {
+		Unit   *int64 `json:"unit_of_work"`
+		Shard  int    `json:"shard"`
+		Shards int    `json:"shards"`
+		Tier   string `json:"tier"`
+	}
+	if json.Unmarshal(cs, &unit) == nil && unit.Unit != nil {
+		// a unit of work that killed its worker: run exactly that unit again (it is expected to kill this process too)
+		c = &Ctx{Def: def, Tier: unit.Tier, Shard: unit.Shard, N: unit.Shards, Res: newResult(0), skipTo: *unit.Unit, stopAt: *unit.Unit + 1}
+		def.Run(c)
+		out, _ := json.Marshal(map[string]interface{}{"violations": c.Res.Violations, "n": c.Res.NViolations, "obs": "unit-of-work survived", "error": c.Res.Error})
+		os.Stdout.Write(append(out, '\n'))
+		return
+	}
 	func() {
 		defer func() {
 			if r := recover(); r != nil {
@@ -326,12 +357,13 @@ func runWorker(def *CheckDef, tier string, shard, n int, deadline time.Time, ski
 	sr := &shardRun{lastIdx: -1}
 	var pr *os.File
 	var wg sync.WaitGroup
-	if def.Risky {
+	if true {
 		r, w, err := os.Pipe()
 		if err != nil {
 			die("pipe: %v", err)
 		}
 		cmd.ExtraFiles = []*os.File{w}
+		cmd.Env = append(cmd.Env, "VERIF_CASE_FD=3")
 		pr = r
 		wg.Add(1)
 		go func() {
@@ -343,6 +375,8 @@ func runWorker(def *CheckDef, tier string, shard, n int, deadline time.Time, ski
 				if i := strings.IndexByte(line, ' '); i > 0 {
 					sr.lastIdx, _ = strconv.ParseInt(line[:i], 10, 64)
 					sr.lastCase = line[i+1:]
+				} else if v, err := strconv.ParseInt(line, 10, 64); err == nil {
+					sr.lastIdx, sr.lastCase = v, ""
 				}
 			}
 		}()
@@ -487,13 +521,18 @@ func orchestrate(args []string) {
 					conform = append(conform, sr.conform...)
 					break
 				}
-				if !def.Risky || sr.lastIdx < 0 {
+				if sr.lastIdx < 0 {
 					merged.Error = fmt.Sprintf("worker died without a result (killed by watchdog: %v, last announced case: %d): %s", sr.killed, sr.lastIdx, tail(sr.stderr, 2000))
 					break
 				}
 				// the announced case killed the process
 				var cs interface{}
-				json.Unmarshal([]byte(sr.lastCase), &cs)
+				if sr.lastCase != "" {
+					json.Unmarshal([]byte(sr.lastCase), &cs)
+				} else {
+					// the check names units of work, not cases: the replay re-runs that unit
+					cs = map[string]interface{}{"unit_of_work": sr.lastIdx, "shard": i, "shards": n, "tier": tier}
+				}
 				class, detail := "process-death", firstLines(sr.stderr, 6)
 				if sr.killed {
 					sr0killed++
